@@ -17,7 +17,42 @@ class Unreconstructable(Exception):
     pass
 
 
-def to_fraction(res):
+def _reconstruct(res, primes):
+    """Wang's rational reconstruction from the residues modulo `primes` (None if there is no small rational)."""
+    Mp = 1
+    for p in primes:
+        Mp *= p
+    a = 0
+    for r, p in zip(res, primes):
+        m = Mp // p
+        a += r * m * pow(m, -1, p)
+    a %= Mp
+    if a == 0:
+        return Fraction(0)
+    bound = int((Mp // 2) ** 0.5)
+    r0, r1, t0, t1 = Mp, a, 0, 1
+    while r1 > bound:
+        q = r0 // r1
+        r0, r1 = r1, r0 - q * r1
+        t0, t1 = t1, t0 - q * t1
+    if t1 == 0 or abs(t1) > bound:
+        return None
+    return Fraction(r1, t1) if t1 > 0 else Fraction(-r1, -t1)
+
+
+def to_fraction(res, guard=False):
+    f = _to_fraction_all(res)
+    if not guard:
+        return f
+    # a rational that is too large for the carrier still "reconstructs" to SOME small-looking rational with the right residues.
+    # Guard: the reconstruction from fifteen of the sixteen primes must give the same rational; a value inside the (smaller)
+    # fifteen-prime bound reconstructs identically from both, a value outside it does not (except with negligible probability)
+    if _reconstruct(res[:-1], PRIMES[:-1]) != f:
+        raise Unreconstructable('value beyond the reconstruction bound of the carrier (15- and 16-prime reconstructions disagree)')
+    return f
+
+
+def _to_fraction_all(res):
     if len(res) != len(PRIMES):
         raise Unreconstructable('expected %d residues, got %d' % (len(PRIMES), len(res)))
     a = sum(r * c for r, c in zip(res, _CRT)) % M
